@@ -8,8 +8,10 @@ use crate::utils::errors::AeronError;
 
 const T: usize = 256;
 
-pub fn supplier(_b: AtomicBuffer, off: i32, len: i32) -> i64 {
-    0x0102_0304_0506_0708 ^ ((off as i64) << 8) ^ len as i64
+/// reserved-value supplier that depends on the frame BODY (as a checksum supplier would): it must see the payload
+pub fn supplier(b: AtomicBuffer, off: i32, len: i32) -> i64 {
+    let body = if len > 32 { b.get::<u8>(off + 32) as i64 } else { 0 };
+    0x0102_0304_0506_0708 ^ ((off as i64) << 8) ^ len as i64 ^ (body << 40)
 }
 
 pub struct Twin {
